@@ -71,8 +71,31 @@ func runC12(c *eng.Ctx) {
 			removes := func(lit *ast.FuncLit) bool {
 				found := false
 				ast.Inspect(lit.Body, func(n ast.Node) bool {
-					if cl, ok := n.(*ast.CallExpr); ok && eng.IsPkgFunc(eng.CalleeOf(info, cl), "os", "Remove") && len(cl.Args) == 1 && eng.SelObj(info, cl.Args[0]) == pathVar {
+					cl, ok := n.(*ast.CallExpr)
+					if !ok || !eng.IsPkgFunc(eng.CalleeOf(info, cl), "os", "Remove") || len(cl.Args) != 1 {
+						return true
+					}
+					if eng.SelObj(info, cl.Args[0]) == pathVar {
 						found = true
+						return true
+					}
+					// os.Remove(x) for every x of a literal list that names the path variable:
+					// for _, x := range []string{a, b, pathVar} { os.Remove(x) }
+					el := elemLoopAt(info, lit.Body, cl.Pos())
+					if el == nil || !el.IsElem(cl.Args[0]) {
+						return true
+					}
+					list, isList := ast.Unparen(el.Base).(*ast.CompositeLit)
+					l := p.LitOf(lit)
+					if !isList || l == nil {
+						return true
+					}
+					lg := p.GraphOfLit(l)
+					for _, elt := range list.Elts {
+						if eng.SelObj(info, elt) == pathVar && lg != nil && loopNoEarlyExit(lg, el.Stmt) &&
+							loopBodyMustPass(lg, el.Stmt, func(m *eng.GNode) bool { return lg.NodeOf(cl) == m }) {
+							found = true
+						}
 					}
 					return true
 				})
